@@ -2,7 +2,7 @@
    program: every round, for every configuration, yields a tree that is [Same] as its input;
    the literal simplification keeps the meaning of every literal and its output lexes as
    one string token.  The guard of the simplification as SHIPPED in b8a063f is refuted. *)
-From MV Require Import Base.Strs Base.LexFacts Syntax.Lexer Syntax.Parser Syntax.Same Syntax.SameFacts Format.Model.
+From MV Require Import Base.Strs Base.LexFacts Syntax.Lexer Syntax.Parser Syntax.Same Syntax.SameFacts Syntax.SameOrder Format.Model.
 From Coq Require Import Lia Permutation.
 Open Scope N_scope.
 Local Arguments N.eqb : simpl never.
@@ -161,18 +161,16 @@ Proof.
   eapply Same_trans; [apply settle_same | apply round_same].
 Qed.
 
-(* With sort_files off the rewritten tree has the same NORMAL FORM, i.e. the boolean
-   acceptance test accepts it. *)
-Theorem rounds_norm c k n : c_sort c = false -> norm false (rounds c k n) = norm false n.
-Proof.
-  intro Hs. apply norm_complete. pose proof (rounds_same c k n) as H. rewrite Hs in H. exact H.
-Qed.
+(* The rewritten tree has the same NORMAL FORM, i.e. the boolean acceptance test accepts it
+   (either setting of sort_files). *)
+Theorem rounds_norm c k n : norm (c_sort c) (rounds c k n) = norm (c_sort c) n.
+Proof. apply norm_complete_any, rounds_same. Qed.
 
 (* ... and the relation is preserved and reflected by the rewrites: two files are the same
    program iff their (modelled) formatted versions are. *)
-Theorem rounds_reflect c k a b : c_sort c = false ->
-  (norm false (rounds c k a) = norm false (rounds c k b) <-> norm false a = norm false b).
-Proof. intro Hs. rewrite !(rounds_norm c k _ Hs). tauto. Qed.
+Theorem rounds_reflect c k a b :
+  (norm (c_sort c) (rounds c k a) = norm (c_sort c) (rounds c k b) <-> norm (c_sort c) a = norm (c_sort c) b).
+Proof. rewrite !rounds_norm. tauto. Qed.
 
 (* sorting keeps the multiset of files() arguments, hence of the flattened items *)
 Theorem sort_keeps_items ks : Permutation (flat_map flat (sort_args ks)) (flat_map flat ks).
@@ -373,3 +371,29 @@ Theorem shipped_visit_not_idempotent :
   round_shipped (mkCfg true true) (round_shipped (mkCfg true true) w_unsorted)
     <> round_shipped (mkCfg true true) w_unsorted.
 Proof. split; vm_compute; discriminate. Qed.
+
+(* ------------------------------------------------------------------ ArgumentFormatter's commas *)
+(* "redundant commas": whatever the flags, the commas that separate the arguments stay and at most
+   one trailing comma is printed - an argument list that parsed still parses, with the same
+   arguments (same_program does not look at commas at all: C16_trivia_ignored). *)
+Theorem comma_rule_safe ns nargs ncommas ml fn loud :
+  (nargs - 1 <= ncommas <= nargs)%nat ->
+  (nargs - 1 <= printed_commas nargs (comma_rule ns nargs ncommas ml fn loud) <= nargs)%nat.
+Proof.
+  intros H. unfold printed_commas, comma_rule.
+  destruct (Nat.eqb_spec ncommas 0), (Nat.eqb_spec ncommas nargs), (Nat.eqb_spec nargs 1);
+    destruct ml, fn, ns, loud; cbn [andb negb]; lia.
+Qed.
+(* what is printed is a fixpoint of the rule (same flags): the comma handling is idempotent *)
+Theorem comma_rule_idem ns nargs ncommas ml fn loud :
+  (nargs - 1 <= ncommas <= nargs)%nat ->
+  printed_commas nargs (comma_rule ns nargs (printed_commas nargs (comma_rule ns nargs ncommas ml fn loud)) ml fn loud)
+  = printed_commas nargs (comma_rule ns nargs ncommas ml fn loud).
+Proof.
+  intros H. unfold printed_commas, comma_rule.
+  destruct (Nat.eqb_spec ncommas 0), (Nat.eqb_spec ncommas nargs), (Nat.eqb_spec nargs 1);
+    destruct ml, fn, ns, loud; cbn [andb negb];
+    repeat match goal with
+           | |- context [Nat.eqb ?a ?b] => destruct (Nat.eqb_spec a b); cbn [andb negb]
+           end; lia.
+Qed.
